@@ -254,6 +254,56 @@ Section Accept.
       rewrite Ht in EA. discriminate.
   Qed.
 
+  (* ---------- a readable summary of the numbered plan ---------- *)
+  Theorem planB_facts :
+    NoDup (map sid PBs) /\ NoDup (all_uuids PBs) /\
+    (forall b, In b (plan_B ord g) -> (is_fg b = true \/ is_tfs b = true) /\ b_link b = false) /\
+    (forall u, In u (ids g) -> exists x, In x (plan_B ord g) /\ is_fg x = true /\ In u (uuids (bs x)) /\
+                                       b_cfw x = cfw_of g u /\ b_grp x = grp_of g u) /\
+    (forall c, In c (plan_B ord g) -> is_fg c = true ->
+       (forall u, In u (uuids (bs c)) -> In u (ids g)) /\ In (b_any c) (uuids (bs c)) /\
+       (forall a, a < tbase g -> (In a (req (bs c)) <-> exists u, In u (uuids (bs c)) /\ anc g a u)) /\
+       (forall i, In i (req (bs c)) -> tbase g <= i -> exists t, In t (plan_B ord g) /\ is_tfs t = true /\ uuids (bs t) = [i] /\
+                                                              b_cfw t = b_cfw c /\ b_grp t = b_grp c)) /\
+    (forall t, In t (plan_B ord g) -> is_tfs t = true ->
+       exists p i, uuids (bs t) = [i] /\ tbase g <= i /\ req (bs t) = [p] /\ In p (ids g) /\
+                   b_from t = cfw_of g p /\ b_fgrp t = grp_of g p /\ b_from t <> b_cfw t).
+  Proof.
+    destruct (raw_facts ord g Hord Hok Hgc) as (F1 & F2 & F3 & F4 & F5).
+    split; [exact (XP_sids ord g)|]. split; [exact (XP_uuids ord g Hord Hok Hgc)|]. split; [|split; [|split]].
+    - intros b Hb. destruct (XP_kinds ord g b Hb) as (K1 & _ & K3). split; assumption.
+    - intros u Hu. destruct (XP_producer ord g Hord Hok Hgc u Hu) as (x & s & Hx & Hfg & _ & Hux & _ & Ec & Eg).
+      exists x. repeat split; assumption.
+    - intros c Hc Hfg. destruct (in_plan_B ord g c Hc) as (j & b0 & _ & Ec & Hb0). subst c.
+      destruct (planB_cases b0 Hb0) as (x & Hx & Hs0 & Hd & Hnew & Hcase).
+      destruct Hcase as [Eb|[e [_ [_ Eb]]]]; subst b0; [|unfold is_fg in Hfg; cbn in Hfg; rewrite kind_mk_tfs in Hfg; discriminate].
+      cbn [bs bset_sid mk_fg uuids req set_sid b_any b_cfw b_grp].
+      split; [intros u Hu; apply F3; apply in_flat_map; exists (fst x); split; assumption|].
+      split; [exact (any_in_step ord g Hord Hok Hgc _ Hs0)|]. split.
+      + intros a Ha. rewrite in_app_iff, (F4 (fst x) a Hs0). split; [|intros H; left; exact H].
+        intros [H|H]; [exact H|]. exfalso. apply in_map_iff in H. destruct H as [e [Ee He]]. apply filter_In in He.
+        destruct (Hnew e (proj1 He) (proj2 He)) as [Hge _]. lia.
+      + intros i Hi Hge. apply in_app_iff in Hi. destruct Hi as [Hi|Hi]; [pose proof (req_feature _ i Hs0 Hi); lia|].
+        apply in_map_iff in Hi. destruct Hi as [e [Ee He]]. apply filter_In in He. destruct He as [He Hn].
+        destruct (Hnew e He Hn) as [_ Hin]. destruct (In_nth_error _ _ Hin) as [k Hk].
+        exists (bset_sid (0 + k) (mk_tfs e)). split; [exact (bnumber_In P 0 k _ Hk)|].
+        destruct (E0_spec ord g) as (_ & _ & _ & S3). destruct (S3 x Hx) as (_ & _ & Hkey).
+        pose proof (key_mk_tfs e) as Ekey. rewrite (Hkey e He) in Ekey. unfold key_of in Ekey. injection Ekey as K1 K2 K3 K4.
+        split; [unfold is_tfs; cbn; rewrite kind_mk_tfs; reflexivity|]. cbn [bs bset_sid uuids set_sid b_cfw b_grp].
+        split; [rewrite uuids_mk_tfs, Ee; reflexivity|]. split; assumption.
+    - intros t Ht Htfs. destruct (in_plan_B ord g t Ht) as (j & b0 & _ & Et & Hb0). subst t.
+      destruct (planB_cases b0 Hb0) as (x & Hx & Hs0 & Hd & Hnew & Hcase).
+      destruct Hcase as [Eb|[e [He [Hn Eb]]]]; subst b0; [discriminate|].
+      assert (Hp : In (te_parent e) (dem ord g (fst x))) by (rewrite <- Hd; apply in_map; exact He).
+      pose proof Hp as Hp'. apply (dem_spec ord g Hord Hok) in Hp'. destruct Hp' as (Hanc & _ & Hcf).
+      exists (te_parent e), (te_id e). cbn [bs bset_sid uuids req set_sid b_from b_cfw b_fgrp].
+      split; [apply uuids_mk_tfs|]. split; [apply (Hnew e He Hn)|]. split; [apply req_mk_tfs|].
+      split; [apply (anc_in_ids g Hok _ _ Hanc)|].
+      destruct (E0_spec ord g) as (_ & _ & _ & S3). destruct (S3 x Hx) as (_ & _ & Hkey).
+      pose proof (key_mk_tfs e) as Ekey. rewrite (Hkey e He) in Ekey. unfold key_of in Ekey. injection Ekey as K1 K2 K3 K4.
+      split; [exact K1|]. split; [exact K3|]. rewrite K1, K2. exact Hcf.
+  Qed.
+
   (* the model accepts exactly when prepare_A accepts the graph with the frameworks forgotten *)
   Theorem prepare_B_iff_A :
     (prepare_B ord g = PlannedB (plan_B ord g) <-> prepare_A ord (erase g) = Planned (plan_of ord (erase g))) /\
